@@ -166,12 +166,14 @@ def describe_classes():
             if others:
                 raise Unsupported("%s owns request caches under other attributes: %s" % (cls.__name__, others))
             rows.append((cls.__name__, has_cache, has_crypto, has_socks, unload_steps(cls)))
-            try:
-                await ov.unload()
-            except Exception:   # noqa
-                pass
+            # (not unloaded here: a broken unload() must not be able to hang the translator)
     try:
         loop.run_until_complete(build())
+        pend = [t for t in asyncio.all_tasks(loop) if not t.done()]
+        for t in pend:
+            t.cancel()
+        if pend:
+            loop.run_until_complete(asyncio.wait(pend, timeout=2.0))
     finally:
         loop.close()
         asyncio.set_event_loop(None)
